@@ -2,6 +2,7 @@ import Driver.ELDriver
 import Driver.SimDriver
 import Driver.InteropDriver
 import Driver.AssertionDriver
+import Driver.NumDriver
 open Lean
 
 def handle (line : String) : String :=
@@ -17,6 +18,8 @@ def handle (line : String) : String :=
       | "sim" => SimDriver.run j
       | "interop" => InteropDriver.run j
       | "assertion" => AssertionDriver.run j
+      | "camera" => NumDriver.run j
+      | "geo" => NumDriver.run j
       | _ => .error s!"unknown kind {kind}"
     match r with
     | .ok v => v.compress
